@@ -99,6 +99,10 @@ func main() {
 	switch *stream {
 	case "engine":
 		sum, err = streamEngine(*seed, *n, *driver, *corpus, *dump, *variant)
+	case "front":
+		sum, err = streamFront(*seed, *n, *driver)
+	case "dyn":
+		sum, err = streamDyn(*seed, *n)
 	case "pool":
 		sum, err = streamPool(*seed, *n)
 	case "http":
